@@ -17,7 +17,7 @@ Proof.
   unfold inbound_xfr, xfr_run. rewrite init_axfr. cbn [Z.eqb tAXFR tIXFR Pos.eqb]. rewrite drive_cons by solve_req.
   rewrite (first_message_axfr z0 ser w (soa_rr fin) a Hw Hr) by (split; reflexivity).
   destruct (cont_full_glue ws' false (map single) a tAXFR z0 [] (match ser with Some sv => sv | None => 0 end) fin
-              B parse_single_ok_glue parse_group_ok_glue Httl Hws HB zsorted_nil Hcat)
+              B parse_single_ok_glue parse_group_ok_glue Httl Hws HB zsorted_nil quiet_nil Hcat)
     as [z' [n [Hn Hz']]].
   exists z', n. split; [exact Hn|exact Hz'].
 Qed.
